@@ -131,7 +131,7 @@ CHECKS = {
         text=("For every (operator list, signature incl. pseudo-types, extents, inner model) TLC checks Closed(G) => the average commutes with "
               "every h in G (non-closed lists as negative controls, at least one must break), and for every band signature/order, (lon,lat), "
               "step count and constant layout that From1d o To1d = id, a longitude flip becomes the 1-D flip and the equator symmetrisation "
-              "commutes with the equator reflection. models.GroupAverage around the Python twin of the inner model (always_average, "
+              "commutes with the equator reflection -- without constant fields and, through an inner model that reads the constant rows and returns the dynamic ones, with them. models.GroupAverage around the Python twin of the inner model (always_average, "
               "inference, off) and Climate1D.to1d/from1d/get_1d_signature/__call__ must reproduce the spec's integer arrays exactly."),
         design_ref="DESIGN.md 4 C10",
         note="Trusted: TLC/SANY/Json; inner-model twin (checked against the spec on every case). Bit-exact for |G| in {1,2,4,8}, 1e-6 relative otherwise.",
@@ -154,8 +154,9 @@ CHECKS = {
         category="model_checking",
         text=("TLC enumerates every history build a; build b; [jit/vmap/tree_flatten round trip | to_vector/from_vector | copy]; "
               "op over all insertion orders of three types whose blocks have equal element counts (so mis-pairing would be silent), "
-              "constructor vs append, and checks ArithByType: (a+b)[t]=a[t]+b[t], results equal for every re-ordering of either "
-              "operand, different type sets rejected. Each behaviour is replayed on real objects (real jax.jit / jax.vmap identity), "
+              "constructor vs append, rebuilding from the same blocks in another insertion order or with two same-shaped blocks "
+              "exchanged between their types, and checks ArithByType: (a+b)[t]=a[t]+b[t], results equal for every re-ordering of either "
+              "operand, == by type, different type sets rejected. Each behaviour is replayed on real objects (real jax.jit / jax.vmap identity), "
               "blocks compared by type and exactly after every step; thorough adds simulated depth-6 histories with concat/split."),
         design_ref="DESIGN.md 4 C12",
         note="Trusted: TLC/SANY/Json, float32 exactness on tokens. Three types, history depth <= 4 exhaustive (6 simulated).",
@@ -219,9 +220,13 @@ CHECKS = {
               "1..3 co-batched multi-images with different type sets, with/without key, device counts dividing B -- is "
               "validated by Trace_TrainLoop: floor(L/B) batches of exactly B, one index sequence shared by every "
               "multi-image and every tensor type, no sample twice per epoch, identity order without key, and the device "
-              "axis a pure reshape (same order as with one device). Rejections name the violated guard."),
-        design_ref="DESIGN.md 4 C17",
-        note="Trusted: TLC/SANY/Json; one CPU device (device counts via repeated handles). (L,B) exhaustive to 8/12, keys sampled.",
+              "axis a pure reshape (same order as with one device). MC_EvalLoop does the same for evaluation in batches "
+              "(EvalInv: every evaluated sample enters loss and map exactly once; termination), and recorded "
+              "map_loss_in_batches / map_plus_loss_in_batches runs on 1, 2 and 4 forced host-platform devices (a real pmap) are "
+              "validated against EvalBatches / EvalStep / EvalReturn: every batch once, in order, aligned, on the given model in "
+              "inference mode, device mean and batch mean exact, mapped output in batch order. Rejections name the violated guard."),
+        design_ref="DESIGN.md 4 C17, 16.1",
+        note="Trusted: TLC/SANY/Json; host-platform CPU devices (get_batches device counts via repeated handles, pmap runs on forced host devices). (L,B) exhaustive to 8/12, keys sampled (12/30 per (L, B>=3)).",
     ),
     "C18": dict(
         engine="tlc+replay",
